@@ -562,7 +562,8 @@ partial def loop (h : IO.FS.Stream) : M Unit := do
       let on := tokB v
       let f' : Fixes := match name with
         | "div" => { f with div := on } | "subMul" => { f with subMul := on }
-        | "umod" => { f with umod := on } | "isqrt" => { f with isqrt := on } | _ => f
+        | "umod" => { f with umod := on } | "isqrt" => { f with isqrt := on }
+        | "lcm" => { f with lcm := on } | _ => f
       { s with cfg := { s.cfg with fixes := f' } }
   | ["tab", id, tn, pn, opn, d, to0, kind] =>
     modify fun s => { s with tabId := id, tabT := tn, tabP := pn, tabOp := opn, tabDir := tokNat d, tabTo0 := tokInt to0,
